@@ -176,7 +176,41 @@ func (l *lexer) emitAtLineColumn(line, column int, typ tokenTyp, length int) {
 	}
 }
 
-var jsMimeType = []byte("text/javascript")
+// jsMimeTypes contains the JavaScript MIME type essence strings. A script
+// element with one of these types, compared ASCII case-insensitively, is
+// executed by browsers as a classic script.
+//
+// See https://mimesniff.spec.whatwg.org/#javascript-mime-type.
+var jsMimeTypes = [][]byte{
+	[]byte("text/javascript"),
+	[]byte("application/javascript"),
+	[]byte("application/ecmascript"),
+	[]byte("application/x-ecmascript"),
+	[]byte("application/x-javascript"),
+	[]byte("text/ecmascript"),
+	[]byte("text/javascript1.0"),
+	[]byte("text/javascript1.1"),
+	[]byte("text/javascript1.2"),
+	[]byte("text/javascript1.3"),
+	[]byte("text/javascript1.4"),
+	[]byte("text/javascript1.5"),
+	[]byte("text/jscript"),
+	[]byte("text/livescript"),
+	[]byte("text/x-ecmascript"),
+	[]byte("text/x-javascript"),
+}
+
+// isJavaScriptMimeType reports whether typ is a JavaScript MIME type essence
+// string.
+func isJavaScriptMimeType(typ []byte) bool {
+	for _, t := range jsMimeTypes {
+		if bytes.EqualFold(typ, t) {
+			return true
+		}
+	}
+	return false
+}
+
 var jsonLDMimeType = []byte("application/ld+json")
 var cssMimeType = []byte("text/css")
 var moduleType = []byte("module")
@@ -445,15 +479,11 @@ func (l *lexer) scan() {
 					} else if l.tag.attr == "type" && l.tag.index >= 0 {
 						switch l.tag.name {
 						case "script":
-							typ := l.src[l.tag.index:p]
-							if bytes.Equal(typ, moduleType) {
-								break
-							}
-							typ = bytes.TrimSpace(typ)
-							if len(typ) > 0 {
+							typ := bytes.Trim(l.src[l.tag.index:p], " \t\n\f\r")
+							if len(typ) > 0 && !bytes.EqualFold(typ, moduleType) {
 								if bytes.EqualFold(typ, jsonLDMimeType) {
 									l.tag.ctx = ast.ContextJSON
-								} else if !bytes.EqualFold(typ, jsMimeType) {
+								} else if !isJavaScriptMimeType(typ) {
 									l.tag.ctx = fileContext
 								}
 							}
